@@ -226,7 +226,11 @@ no_stale_reads = Contract(
 def _matches_native(i):
     import strax
     sf = strax.StorageFrontend()
-    return bool(sf._matches(i["lineage"], i["desired"], tuple(i["fuzzy_for"]), tuple(i["fuzzy_for_options"])))
+    import copy
+    lin, des = copy.deepcopy(i["lineage"]), copy.deepcopy(i["desired"])
+    res = bool(sf._matches(lin, des, tuple(i["fuzzy_for"]), tuple(i["fuzzy_for_options"])))
+    # the lineages handed in are shared with the cached plugins of the context: matching must not modify them
+    return res, (lin == i["lineage"] and des == i["desired"])
 
 
 def _differs_only_in_fuzzy(lin, des, ff, ffo):
@@ -245,7 +249,8 @@ def _differs_only_in_fuzzy(lin, des, ff, ffo):
 
 def _matches_ens(S, a, r):
     return [("stored data is accepted exactly when its lineage differs from the requested one only in the fuzzy data types / options",
-             bool(r) == _differs_only_in_fuzzy(a.lineage, a.desired, a.fuzzy_for, a.fuzzy_for_options))]
+             bool(r[0]) == _differs_only_in_fuzzy(a.lineage, a.desired, a.fuzzy_for, a.fuzzy_for_options)),
+            ("matching leaves both lineages as they were (they are shared with the context's plugins)", bool(r[1]))]
 
 
 def _lineages():
@@ -327,13 +332,16 @@ def _hash_gen(rng, tier):
               {"ta": ["A", "0", {"o1": 1, "o2": 3, "zz": [1, 2]}], "tb": ["B", "0", {"x": "s", "a": 1.5}]},
               {"ta": ["A", "1", {"o1": 1, "o2": 2, "zz": [1, 2]}], "tb": ["B", "0", {"x": "s", "a": 1.5}]},
               {"tb": ["B", "0", {"x": "s", "a": 1.5}]},
-              {"k": {"nested": {"b": 1, "a": 2}, "c": [3, {"e": 1, "d": 2}]}}]
+              {"k": {"nested": {"b": 1, "a": 2}, "c": [3, {"e": 1, "d": 2}]}},
+              # option values that compare equal in Python but are different settings (hashed one after the other in one process)
+              {"tc": ["C", "0", {"o": 1}]}, {"tc": ["C", "0", {"o": 1.0}]}, {"tc": ["C", "0", {"o": True}]},
+              {"tc": ["C", "0", {"o": 0}]}, {"tc": ["C", "0", {"o": False}]}]
     yield dict(things=things, seeds=[0, 1, 12345] if tier == "quick" else [0, 1, 2, 3, 12345, 999])
 
 
 hash_stable = Contract(
     "strax/utils.py", "deterministic_hash (stability)", params=dict(things="V", seeds="V"), ensures=_hash_ens, raises={},
     harness=Harness(native=_hash_native, gen=_hash_gen,
-                    scope="5 lineage-like container hierarchies, forward / reversed insertion order / immutabledict, in subprocesses with "
+                    scope="10 lineage-like container hierarchies (five of them differing only in 1 / 1.0 / True / 0 / False), forward / reversed insertion order / immutabledict, in subprocesses with "
                           "3 (thorough: 6) different PYTHONHASHSEED values",
                     nontrivial=lambda i: True))
